@@ -54,14 +54,42 @@ def classify_exception(exc):
     return "harness"
 
 
-def run_one(mod, scenario):
-    """Execute one scenario; returns a JSON-able outcome dict."""
+class RunTimeout(BaseException):
+    """Soft per-run wall-clock limit (BaseException: no 'except Exception' on the way may swallow it)."""
+
+
+def _on_alarm(signum, frame):
+    raise RunTimeout()
+
+
+SOFT_TIMEOUT_S = 300.0
+
+
+def run_one(mod, scenario, soft_timeout=None):
+    """Execute one scenario; returns a JSON-able outcome dict.  A run that exceeds the soft wall-clock limit is
+    abandoned and counted as inconclusive ('timeout'): it can never become a violation or an exit status."""
+    import signal
+
     from sim.flowseam import StepBudgetExceeded
 
     t0 = time.perf_counter()
+    armed = False
+    if soft_timeout and hasattr(signal, "setitimer"):
+        try:
+            signal.signal(signal.SIGALRM, _on_alarm)
+            signal.setitimer(signal.ITIMER_REAL, soft_timeout)
+            armed = True
+        except ValueError:  # not the main thread
+            armed = False
     try:
-        out = mod.execute(scenario)
-        out.setdefault("status", "ok")
+        try:
+            out = mod.execute(scenario)
+            out.setdefault("status", "ok")
+        finally:
+            if armed:
+                signal.setitimer(signal.ITIMER_REAL, 0)
+    except RunTimeout:
+        out = {"status": "inconclusive", "inconclusive": ["timeout"], "violations": [], "msg": f"soft limit {soft_timeout}s"}
     except StepBudgetExceeded as e:
         out = {"status": "inconclusive", "inconclusive": ["budget"], "violations": [], "msg": str(e)}
     except Exception as e:  # noqa: BLE001
@@ -104,7 +132,7 @@ def worker_main(pid, tier, verif_seed, start, stride, count, out_path, deadline_
                 f.flush()
                 continue
             faulthandler.dump_traceback_later(max(900, 3 * getattr(mod, "RUN_TIMEOUT_S", 300)), exit=True)
-            out = run_one(mod, sc)
+            out = run_one(mod, sc, soft_timeout=float(os.environ.get("VERIF_RUN_SOFT_TIMEOUT", SOFT_TIMEOUT_S)))
             faulthandler.cancel_dump_traceback_later()
             out["run"] = run
             out["seed"] = seed
